@@ -25,8 +25,8 @@ type Explorer struct {
 	Shared     map[string]bool // objects known to be touched by several threads; fixed during one pass (may be seeded from an earlier bound)
 	newShared  map[string]bool // objects found shared during the current pass
 	UseShared  bool
-	UseCache   bool             // prune by happens-before state key
-	cache      map[uint64]int8  // state key -> largest remaining preemption budget explored from it
+	UseCache   bool            // prune by happens-before state key
+	cache      map[uint64]int8 // state key -> largest remaining preemption budget explored from it
 	Pruned     int
 	Restarts   int
 	TimerRuns  int
